@@ -28,7 +28,8 @@ register('C03', 'model_checking',
          "quotient is inexact); the uninterpreted field follows the return-buffer convention probed on a real compiled "
          "model per backend; jax.lax.scan and torch.empty are library models; the "
          "glue layer is concrete enumeration; adaptive solvers (scipy solve_ivp/ode, diffrax) are NOT claimed: there is "
-         "nothing to encode within reach (DESIGN.md section 9)",
+         "nothing to encode within reach (DESIGN.md section 9); their side of the interface is guarded by a concrete "
+         "contract probe only (the callable handed to scipy.integrate.solve_ivp must not overwrite the array it returned)",
          "symbolic execution of the real solver kernels with uninterpreted vector field (symx + z3)", "7/C03")
 register('C04', 'translation_validation',
          "Generated circuits (1-2 node types, 1..N structurally identical nodes, dense/sparse/diagonal/ring/fan-in/"
@@ -38,7 +39,8 @@ register('C04', 'translation_validation',
          "the same function. Per-node symbols are bound by value fingerprint, so a permutation inside a merged vector "
          "is a disequality.",
          "reals for floats; nodes per type <= 3/5; trajectories follow from equality of the vector field together with "
-         "C03's kernel result (no separate trajectory obligations); delays are handled under C09/C11",
+         "C03's kernel result (no separate trajectory obligations); delayed edges: the fixed ring-buffer programs of C09 and "
+         "the mixed gamma/plain/undelayed programs of C11 with vectorize on and off, larger delay families under C09/C11",
          "SMT translation validation of emitted code, vectorize on vs off (symx + z3)", "7/C04")
 register('C15', 'translation_validation',
          "One generated spec is built four ways - Python classes, YAML text through from_yaml, to_yaml -> from_yaml "
@@ -124,7 +126,10 @@ register('C10', 'translation_validation',
          "symbolically with an uninterpreted delayed vector field and proved equal to the method-of-steps iterates with "
          "constant pre-history.",
          "reals for floats; convergence of dopri5 / solve_ivp to the DDE solution is NOT claimed (third-party adaptive "
-         "integrators); DDEHistory's interpolation is C19; kernel bound: steps <= 6/10, delay 1..3 steps (multiples of dt)",
+         "integrators); DDEHistory's interpolation is C19; kernel bound: steps <= 6/10, delay 1..3 steps (multiples of dt), "
+         "history capacity lowered to 2 in some kernels so that the buffer grows during the run (a job whose symbolic run "
+         "breaks down on a never-written row is decided by the float replay on the real kernel); equal-valued delay "
+         "parameters are told apart by calling the function with another value for one of them",
          "SMT translation validation with uninterpreted history functions (symx + z3)", "7/C10")
 register('C06', 'translation_validation',
          "The real CircuitTemplate.run executes with a _solve stub that captures the compiled function/arguments/source "
@@ -224,8 +229,10 @@ register('C02', 'translation_validation',
          "parameters, hence the backends agree. Both vector-field conventions (in-place buffer, returned array), "
          "vectorize on/off where allowed, one program per registered function, delay ring buffers (NumPy/Torch/Fortran), "
          "gamma chains, extrinsic inputs through each backend's interp/index code (symbolic samples and symbolic t). "
-         "Returned argument values are compared by name across backends. The backends' own fixed-step kernels are "
-         "decided in C03 (uninterpreted vector field).",
+         "Returned argument values are compared by name across backends. The backends' own fixed-step kernels integrate "
+         "one uninterpreted, time-dependent vector field and must all return the same reference iterates (small grid "
+         "here, the full one in C03). A concrete probe (not solver-decided) checks that a float64 function keeps its "
+         "value after a float32 model was compiled for the same backend.",
          "reals for floats: agreement 'to working precision' of the numerical libraries themselves (torch vs numpy exp) and "
          "float32 effects are not claimed; adaptive integrators outside; the Fortran function is replayed through a "
          "ctypes stand-in for the missing f2py/meson tool chain (same .f90 compiled with gfortran); GPU/Julia/Matlab "
